@@ -23,6 +23,7 @@ type Spec struct {
 	Backoff   float64 `json:"backoff,omitempty"`
 	IncBy     int     `json:"increase_by,omitempty"`
 	ProbeMult int     `json:"probe_multiplier,omitempty"`
+	Debug     bool    `json:"debug_logger,omitempty"` // built with a logger whose IsDebugEnabled() is true (output discarded)
 	Funcs     string  `json:"vegas_custom_functions,omitempty"` // "" (defaults) | decrease=half | decrease=minus3 | threshold=0 | threshold=-1 | increase=plus2
 	QueueKind string  `json:"queue_kind,omitempty"` // fixed | sqrt
 	QueueArg  int     `json:"queue_arg,omitempty"`
@@ -94,6 +95,22 @@ func (s Spec) Ceil() int {
 	return s.Max
 }
 
+// DebugLogger is a limit.Logger with debug enabled that discards its output.
+type DebugLogger struct{}
+
+// Debugf implements limit.Logger.
+func (DebugLogger) Debugf(string, ...interface{}) {}
+
+// IsDebugEnabled implements limit.Logger.
+func (DebugLogger) IsDebugEnabled() bool { return true }
+
+func (s Spec) logger() limit.Logger {
+	if s.Debug {
+		return DebugLogger{}
+	}
+	return nil
+}
+
 // New builds a fresh instance.
 func (s Spec) New(reg core.MetricRegistry, name string, tags ...string) core.Limit {
 	switch s.Kind {
@@ -115,12 +132,12 @@ func (s Spec) New(reg core.MetricRegistry, name string, tags ...string) core.Lim
 			inc = func(l float64) float64 { return l + 2 }
 		}
 		return limit.NewVegasLimitWithRegistry(name, s.Initial, nil, s.Max, s.Smoothing, nil, nil, thr, inc, dec,
-			s.ProbeMult, nil, reg, tags...)
+			s.ProbeMult, s.logger(), reg, tags...)
 	case "gradient":
 		return limit.NewGradientLimitWithRegistry(name, s.Initial, s.Min, s.Max, s.Smoothing, s.Queue(), s.RTTTol,
-			s.ProbeInt, nil, reg, tags...)
+			s.ProbeInt, s.logger(), reg, tags...)
 	case "gradient2":
-		l, err := limit.NewGradient2Limit(name, s.Initial, s.Max, s.Min, s.Queue(), s.Smoothing, s.LongWin, nil, reg, tags...)
+		l, err := limit.NewGradient2Limit(name, s.Initial, s.Max, s.Min, s.Queue(), s.Smoothing, s.LongWin, s.logger(), reg, tags...)
 		if err != nil {
 			panic(fmt.Sprintf("gradient2 spec %+v: %v", s, err))
 		}
